@@ -164,6 +164,21 @@ def main(tier, seed, replay=None):
     # every call on whatever model results — an error value or a result, never a panic
     from . import c15, mb
     mprogs = []
+    import itertools
+    jj = 0
+    for names0 in ([1], [1, 2]):
+        al = c15.alphabet(names0)
+        for L in range(0, 4 if tier == "quick" else 4):
+            for ops0 in itertools.product(al, repeat=L):
+                if tier == "quick" and L == 3 and (jj % 3):
+                    jj += 1
+                    continue
+                jj += 1
+                P0 = len(names0)
+                calls0 = [("params",), ("eval",)] + [("deriv", k) for k in range(P0)]
+                mc = mb.to_harness(names0, list(ops0), scalar="f64", calls=calls0)
+                mc["id"] = 100000 + jj
+                mprogs.append((names0, list(ops0), calls0, mc))
     for j in range(600 if tier == "quick" else 20000):
         names, ops = c15.random_program(rng)
         P = len(names)
